@@ -52,7 +52,7 @@ def run_entry(args) -> dict:
         new = [f for f in ctx.findings if f.key() not in known]
         rules = sorted({f.rule for f in new})
         if entry["expect"] == "fire":
-            want = entry.get("rule")
+            want = entry.get("rule") if prop == entry["props"][0] else None
             ok = bool(new) and (want is None or any(r.startswith(want) for r in rules))
             return {"id": entry["id"], "status": "ok" if ok else "MISSED", "rules": rules,
                     "why": "" if ok else f"expected a violation{' of ' + want if want else ''}, got {rules}"}
